@@ -90,6 +90,10 @@ func (s *swamp) PatchExpired(howMany int32, ops []msgpackpatch.Op, condition *ms
 		if t.GetExpirationTime() == 0 {
 			continue
 		}
+		if s.beaconKey.Get(t.GetKey()) != t {
+			// deleted meanwhile: must not come back into the index
+			continue
+		}
 		if s.expirationTimeBeaconDESC.IsInitialized() {
 			s.expirationTimeBeaconDESC.Add(t)
 		}
@@ -112,6 +116,15 @@ func (s *swamp) applyPatchExpiredOne(treasureObj treasure.Treasure, ops []msgpac
 	defer treasureObj.ReleaseTreasureGuard(guardID)
 
 	entry := PatchExpiredEntry{Key: treasureObj.GetKey()}
+
+	// The record may have been deleted (or deleted and re-created) by somebody else between
+	// the selection and the moment we got its guard. Patching and saving the stale object
+	// would bring the deleted record back to life.
+	if s.beaconKey.Get(treasureObj.GetKey()) != treasureObj {
+		entry.Status = PatchStatusKeyNotFound
+		entry.ExpiredAt = expirationTimeAsTime(treasureObj.GetExpirationTime())
+		return entry
+	}
 
 	switch treasureObj.GetContentType() {
 	case treasure.ContentTypeByteArray:
